@@ -290,6 +290,32 @@ def replay_rows(rep, rows, uni, pool, rnd, source, sample_every=9973):
     return failures
 
 
+def _replay_worker(args):
+    rows, uni, seed, source, light = args
+    global LIGHT
+    LIGHT = light
+    acc = mc.Acc()
+    pool = mc.PathPool("c06w")
+    try:
+        fails = replay_rows(acc, rows, uni, pool, random.Random(seed), source)
+    finally:
+        pool.close()
+    return acc, fails
+
+
+def replay_rows_parallel(rep, rows, uni, pool, rnd, source, nproc=3):
+    """replay_rows over `nproc` worker processes (inline for small jobs)."""
+    if len(rows) < 600:
+        return replay_rows(rep, rows, uni, pool, rnd, source)
+    chunks = mc.split(rows, nproc)
+    out = mc.run_parallel(_replay_worker, [(c, uni, rnd.randrange(2**31), source, LIGHT) for c in chunks], nproc)
+    failures = []
+    for acc, fails in out:
+        mc.merge_acc(rep, acc)
+        failures += fails
+    return failures
+
+
 def random_rows(rep, pool, rnd, n, maxdepth, source):
     """code -> spec: random typed pairs, verdict recorded from the real matcher, decided by TLC."""
     g = mc.Gen(rnd)
@@ -414,7 +440,7 @@ def run(tier, pid="C06"):
         for cfg, rows, uni, r in mc.tlc_rows_pipeline(jobs, "C06"):  # TLC of the next job runs during this replay
             rep.add_tlc(r, cfg)
             t1 = time.time()
-            failures += replay_rows(rep, rows, uni, pool, rnd, cfg)
+            failures += replay_rows_parallel(rep, rows, uni, pool, rnd, cfg)
             phases[cfg] = {"tlc": round(r.wall_s, 1), "replay": round(time.time() - t1, 1)}
         done = 0
         t0 = time.time()
